@@ -154,7 +154,7 @@ struct Fail {
 template <class G> void checkC11(const G &g, const Model &m, Fail &f) {
     Ref r(m);
     const unsigned n = m.n;
-    const size_t SENT = algorithms::BASEGRAPH_VERTEX_MAX;
+    const size_t SENT = (size_t)std::numeric_limits<VertexIndex>::max();
     for (unsigned s = 0; s < n; ++s) {
         auto d = r.hopDistances(s);
         progressTick();
@@ -189,7 +189,7 @@ template <class G> void checkC11(const G &g, const Model &m, Fail &f) {
                 if (got != want) f.add("c11.all", "findAllVertexPredecessors: predecessors of " + std::to_string(v) + " are " + seqStr(got) + ", expected exactly " + seqStr(want) + ", " + where);
             }
         // single geodesics
-        auto validPath = [&](const algorithms::Path &p, unsigned t) -> std::string {
+        auto validPath = [&](const auto &p, unsigned t) -> std::string {
             if (d[t] == Ref::INF) return p.empty() ? "" : "non-empty path " + seqStr(p) + " to an unreachable vertex";
             std::vector<unsigned> v(p.begin(), p.end());
             if (t == s) return (v.size() == 1 && v[0] == s) ? "" : "path to the source itself is " + seqStr(v) + ", expected [" + std::to_string(s) + "]";
@@ -218,7 +218,7 @@ template <class G> void checkC11(const G &g, const Model &m, Fail &f) {
                 r.enumeratePaths(s, t, d, want);
             }
             std::sort(want.begin(), want.end());
-            auto canonAll = [&](const algorithms::MultiplePaths &mp) {
+            auto canonAll = [&](const auto &mp) {
                 std::vector<std::vector<unsigned>> got;
                 for (auto &q : mp) got.emplace_back(q.begin(), q.end());
                 std::sort(got.begin(), got.end());
@@ -260,7 +260,7 @@ template <class G> void checkC12(const G &g, const Model &m, Fail &f) {
             if (v == s) {
                 if (p != s) f.add("c12.pred", "the source's predecessor is " + std::to_string(p) + ", expected the source itself, " + where);
             } else if (d[v] == Ref::INF) {
-                if ((size_t)p != algorithms::BASEGRAPH_VERTEX_MAX) f.add("c12.pred", "unreachable vertex " + std::to_string(v) + " has predecessor " + std::to_string(p) + " instead of the sentinel, " + where);
+                if ((size_t)p != (size_t)std::numeric_limits<VertexIndex>::max()) f.add("c12.pred", "unreachable vertex " + std::to_string(v) + " has predecessor " + std::to_string(p) + " instead of the sentinel, " + where);
             } else {
                 if (p >= n || !r.edge(p, v)) f.add("c12.pred", "predecessor " + std::to_string(p) + " of " + std::to_string(v) + " is not joined to it by an edge, " + where);
                 else if (res.first[v] != res.first[p] + weightOf(r.w[p][v])) f.add("c12.pred", "dist[" + std::to_string(v) + "] != dist[" + std::to_string(p) + "] + weight(" + std::to_string(p) + "," + std::to_string(v) + "), " + where);
@@ -317,7 +317,7 @@ template <class G> void checkC19(const G &g, const Model &m, Fail &f, bool weigh
                 // the counted runs must still be right (cheap part of the C11 oracle)
                 auto d = r.hopDistances(s);
                 for (unsigned v = 0; v < n; ++v) {
-                    size_t want = d[v] == Ref::INF ? algorithms::BASEGRAPH_VERTEX_MAX : (size_t)d[v];
+                    size_t want = d[v] == Ref::INF ? (size_t)std::numeric_limits<VertexIndex>::max() : (size_t)d[v];
                     if (a.first[v] != want || b.first[v] != want) f.add("c19.result", "a counted search returned a wrong distance for vertex " + std::to_string(v) + " from " + std::to_string(s));
                 }
             }
